@@ -1,6 +1,8 @@
-(* Proofs/StateLock.v — lemmas about the concrete critical-section function and the
-   specification replay of Model/StateLock.v. *)
-From Eino Require Import Base.Util Model.StateLock.
+(* Proofs/StateLock.v — C11: lemmas about the concrete critical-section function of the
+   harness (Model/StateLock.v part 1) on top of the generic theorems, and the concrete
+   configurations used as non-vacuity examples in Props/C11.v. *)
+From Eino Require Import Base.Util Model.StateLock Model.StateLockLTS Proofs.StateLockLTS Proofs.StateLockVal.
+From Coq Require Import Lia.
 Open Scope N_scope.
 
 Lemma cs_fun_counts_once : forall k n x s,
@@ -8,25 +10,149 @@ Lemma cs_fun_counts_once : forall k n x s,
   s_log (snd (cs_fun k n x s)) = s_log s ++ [code n k].
 Proof. intros; unfold cs_fun; simpl; split; reflexivity. Qed.
 
-(* ------------------------------------------------------------------ sanity: the LTS runs *)
-From Eino Require Import Model.StateLockLTS.
+Definition code_of (e : tentry sstate X) : N := code (n_id (t_node e)) (t_kind e).
 
+Lemma cs_apply_total : forall l s,
+  s_total (apply_all sstate X cs_fun l s) = (s_total s + Z.of_nat (List.length l))%Z.
+Proof.
+  unfold apply_all. induction l as [|e l IH]; intros s.
+  - simpl. lia.
+  - cbn [fold_left List.length]. rewrite IH. unfold eff, cs_fun. cbn [snd s_total]. lia.
+Qed.
+
+Lemma cs_apply_log : forall l s,
+  s_log (apply_all sstate X cs_fun l s) = s_log s ++ map code_of l.
+Proof.
+  unfold apply_all. induction l as [|e l IH]; intros s.
+  - simpl. rewrite app_nil_r. reflexivity.
+  - cbn [fold_left map]. rewrite IH. unfold eff, cs_fun. cbn [snd s_log]. rewrite <- app_assoc. reflexivity.
+Qed.
+
+(* the counters kept in the state count exactly the critical sections performed on it, and
+   its log lists them in the order they were performed *)
+Theorem final_counters_preach : forall f x0 c,
+  preach sstate X gen_state cs_fun leaf_out merge f x0 c ->
+  forall o r, nth_error (c_objs c) o = Some r ->
+    s_total (o_val r) = (s_total (o_init r) + Z.of_nat (List.length (hist sstate X c o)))%Z /\
+    s_log (o_val r) = s_log (o_init r) ++ map code_of (hist sstate X c o).
+Proof.
+  intros f x0 c Hr o r Ho.
+  rewrite (no_lost_update_preach sstate X gen_state cs_fun leaf_out merge f x0 c Hr o r Ho).
+  split; [apply cs_apply_total|apply cs_apply_log].
+Qed.
+
+(* ------------------------------------------------------------------ example configurations *)
+
+(* eager top-level graph with state: three parallel nodes (1: pre, 2 ProcessState calls,
+   post; 2: one call, post; 3: nested graph without state whose lambdas call ProcessState,
+   with a pre-handler) and a join node 4 *)
 Definition ex_forest : forest :=
   [ mkGraph MEager true
       [ mkNode 1 true true None 2%nat []; mkNode 2 false true None 1%nat []; mkNode 3 true false (Some 1%nat) 0%nat [];
         mkNode 4 true true None 1%nat [1; 2; 3] ];
     mkGraph MPregel false [ mkNode 5 false false None 2%nat []; mkNode 6 false false None 1%nat [5] ] ].
+Definition ex_x0 : X := [(0, 5%Z)].
+
+Notation ex_pstep := (pstep sstate X gen_state cs_fun leaf_out merge ex_forest ex_x0).
+Notation ex_step := (step sstate X gen_state cs_fun leaf_out merge ex_forest ex_x0).
 
 Definition ex_start : config sstate X :=
-  match pstep sstate X gen_state cs_fun leaf_out merge ex_forest [(0, 5%Z)] (init_cfg sstate X) (ChStart 0) with
+  match ex_step (init_cfg sstate X) (ChStart 0) with
   | Some c => c | None => init_cfg sstate X end.
 Definition ex_run (picks : list nat) : config sstate X :=
-  run_sched sstate X gen_state cs_fun leaf_out merge ex_forest [(0, 5%Z)] ex_start picks.
+  run_sched sstate X gen_state cs_fun leaf_out merge ex_forest ex_x0 ex_start picks.
 
 Definition ex_picks1 := repeat 0%nat 200.
 Definition ex_picks2 := map (fun k => (k * 7 + 3) mod 5)%nat (seq 0 200).
+
+Lemma ex_start_reach : reach sstate X gen_state cs_fun leaf_out merge ex_forest ex_x0 ex_start.
+Proof. apply reach_step with (c := init_cfg sstate X) (ch := ChStart 0); [constructor|]. vm_compute. reflexivity. Qed.
+
+Lemma ex_run_reach : forall picks, reach sstate X gen_state cs_fun leaf_out merge ex_forest ex_x0 (ex_run picks).
+Proof. intros. apply run_sched_reach. apply ex_start_reach. Qed.
+
+(* a complete run under the run loop's scheduling constraints *)
+Definition ex_final : config sstate X := ex_run ex_picks2.
+(* the same run stopped while node 1 is inside its pre-handler *)
+Definition ex_mid : config sstate X := ex_run (firstn 10 ex_picks2).
+
+(* an execution of [pstep]: node 1 is inside its first ProcessState callback while node 2,
+   running in parallel, is about to call ProcessState *)
+Definition ex_contend_sched : list (choice sstate) :=
+  [ChStart 0; ChAdv 0%nat 1; ChAdv 0%nat 2; ChAcq 0%nat 1; ChLoad 0%nat 1; ChStore 0%nat 1; ChRel 0%nat 1;
+   ChAdv 0%nat 1; ChAdv 0%nat 2; ChAdv 0%nat 2; ChAcq 0%nat 1; ChLoad 0%nat 1].
+Definition ex_contend : config sstate X :=
+  match run_steps sstate X ex_pstep (init_cfg sstate X) ex_contend_sched with
+  | Some c => c | None => init_cfg sstate X end.
+
+Lemma ex_contend_preach : preach sstate X gen_state cs_fun leaf_out merge ex_forest ex_x0 ex_contend.
+Proof.
+  apply run_steps_preach with (l := ex_contend_sched) (c := init_cfg sstate X); [constructor|]. vm_compute. reflexivity.
+Qed.
+
+(* a run interrupted after the first layer and resumed with the state modifier *)
+Definition ex_resume_sched : list (choice sstate) :=
+  [ChStart 0; ChAdv 0%nat 2; ChAdv 0%nat 2; ChAdv 0%nat 2; ChAcq 0%nat 2; ChLoad 0%nat 2; ChStore 0%nat 2; ChRel 0%nat 2;
+   ChResume 0%nat modifier;
+   ChAdv 0%nat 2; ChAcq 0%nat 2; ChLoad 0%nat 2; ChStore 0%nat 2; ChRel 0%nat 2].
+Definition ex_resumed : config sstate X :=
+  match run_steps sstate X ex_pstep (init_cfg sstate X) ex_resume_sched with
+  | Some c => c | None => init_cfg sstate X end.
+Lemma ex_resumed_preach : preach sstate X gen_state cs_fun leaf_out merge ex_forest ex_x0 ex_resumed.
+Proof.
+  apply run_steps_preach with (l := ex_resume_sched) (c := init_cfg sstate X); [constructor|]. vm_compute. reflexivity.
+Qed.
+
+(* the system whose lock does not block: nodes 1 and 2 are inside their ProcessState
+   callbacks at the same time, both work on the same copy, one update is lost *)
+Definition ex_nolock_sched : list (choice sstate) :=
+  [ChStart 0; ChAdv 0%nat 1; ChAdv 0%nat 2; ChAcq 0%nat 1; ChLoad 0%nat 1; ChStore 0%nat 1; ChRel 0%nat 1;
+   ChAdv 0%nat 1; ChAdv 0%nat 2; ChAdv 0%nat 2;
+   ChAcq 0%nat 1; ChLoad 0%nat 1; ChAcq 0%nat 2; ChLoad 0%nat 2].
+Definition ex_nolock_sched2 : list (choice sstate) :=
+  [ChStore 0%nat 1; ChStore 0%nat 2; ChRel 0%nat 1; ChRel 0%nat 2].
+Definition ex_nolock_mid : config sstate X :=
+  match run_steps sstate X (pstep_nolock sstate X gen_state cs_fun leaf_out merge ex_forest ex_x0)
+                  (init_cfg sstate X) ex_nolock_sched with
+  | Some c => c | None => init_cfg sstate X end.
+Definition ex_nolock_end : config sstate X :=
+  match run_steps sstate X (pstep_nolock sstate X gen_state cs_fun leaf_out merge ex_forest ex_x0)
+                  ex_nolock_mid ex_nolock_sched2 with
+  | Some c => c | None => init_cfg sstate X end.
+
+Notation ex_nolock := (pstep_nolock sstate X gen_state cs_fun leaf_out merge ex_forest ex_x0).
+
+Lemma ex_nolock_end_run :
+  run_steps sstate X ex_nolock (init_cfg sstate X) (ex_nolock_sched ++ ex_nolock_sched2) = Some ex_nolock_end.
+Proof. vm_compute. reflexivity. Qed.
+Lemma ex_nolock_mid_run :
+  run_steps sstate X ex_nolock (init_cfg sstate X) ex_nolock_sched = Some ex_nolock_mid.
+Proof. vm_compute. reflexivity. Qed.
+
+(* without a blocking lock both conclusions fail *)
+Lemma no_lost_update_nolock_refuted :
+  ~ (forall l c, run_steps sstate X ex_nolock (init_cfg sstate X) l = Some c ->
+       forall o r, nth_error (c_objs c) o = Some r ->
+         o_val r = apply_all sstate X cs_fun (hist sstate X c o) (o_init r)).
+Proof.
+  intro H.
+  assert (Hr : exists r, nth_error (c_objs ex_nolock_end) 0%nat = Some r /\ s_total (o_val r) = 2%Z /\
+                         s_total (apply_all sstate X cs_fun (hist sstate X ex_nolock_end 0%nat) (o_init r)) = 3%Z).
+  { eexists. vm_compute. repeat split; reflexivity. }
+  destruct Hr as (r & Hn & H2 & H3).
+  specialize (H _ _ ex_nolock_end_run _ _ Hn). rewrite <- H in H3. rewrite H2 in H3. discriminate.
+Qed.
+
+Lemma mutex_nolock_refuted :
+  ~ (forall l c, run_steps sstate X ex_nolock (init_cfg sstate X) l = Some c ->
+       forall i n i' n' o, in_cs sstate X c i n o -> in_cs sstate X c i' n' o -> i = i' /\ n = n').
+Proof.
+  intro H.
+  assert (H1 : in_cs sstate X ex_nolock_mid 0%nat 1 0%nat) by (eexists _, _, _; vm_compute; repeat split; reflexivity).
+  assert (H2 : in_cs sstate X ex_nolock_mid 0%nat 2 0%nat) by (eexists _, _, _; vm_compute; repeat split; reflexivity).
+  destruct (H _ _ ex_nolock_mid_run _ _ _ _ _ H1 H2) as (_ & Hn). discriminate.
+Qed.
+
 Definition ex_view (c : config sstate X) :=
   (all_final sstate X c, map (fun e => (t_inst e, n_id (t_node e), kcode (t_kind e))) (c_trace c),
    map (fun o => s_total (o_val o)) (c_objs c)).
-Eval vm_compute in ex_view (ex_run ex_picks1).
-Eval vm_compute in ex_view (ex_run ex_picks2).
